@@ -196,7 +196,7 @@ theorem stored_once_history (hashOf : List β → H) (ops : List (LOp β F)) (st
     (hst : ∀ g ∈ st, (uniques (g.map (recsD hashOf)).flatten).Nodup)
     (hs : ∀ (pre : List (LOp β F)) (op : LOp β F) (post : List (LOp β F)), ops = pre ++ op :: post →
         OpSoundL hashOf (pre.foldl (stepL hashOf) st) op)
-    (hread : ∀ name es fpf mask ng, LOp.run name es fpf mask ng ∈ ops → ∀ b ∈ mask, b = true) :
+    (hread : ∀ name es fpf mask ng pad, LOp.run name es fpf mask ng pad ∈ ops → ∀ b ∈ mask, b = true) :
     ∀ g ∈ ops.foldl (stepL hashOf) st, (uniques (g.map (recsD hashOf)).flatten).Nodup := by
   induction ops generalizing st with
   | nil => simpa using hst
@@ -207,13 +207,13 @@ theorem stored_once_history (hashOf : List β → H) (ops : List (LOp β F)) (st
       simp only [List.foldl_nil] at hsound
       cases op with
       | deleteGroups keep => intro g hg; exact hst g (keepMasked_sub st keep g hg)
-      | run name es fpf mask newGroup =>
-        have hmask := hread name es fpf mask newGroup (by simp)
+      | run name es fpf mask newGroup pad =>
+        have hmask := hread name es fpf mask newGroup pad (by simp)
         have hfresh : ∀ (hs' : RunSound hashOf ([] : List (LBackupF β F)) [] es fpf),
-            (uniques ([runL hashOf ([] : List (LBackupF β F)) [] name es fpf].map (recsD hashOf)).flatten).Nodup := by
+            (uniques ([runL hashOf ([] : List (LBackupF β F)) [] name es fpf pad].map (recsD hashOf)).flatten).Nodup := by
           intro hs'
           simp only [List.map_cons, List.map_nil]
-          rw [recsD_runL hashOf [] [] name es fpf hs']
+          rw [recsD_runL hashOf [] [] name es fpf pad hs']
           have := unique_nodup (hashOf []) ([] : List (List (Rec H F String))) (eventsOf hashOf fpf es) (by simp [uniques])
           simpa [view, allReadable] using this.1
         unfold stepL
@@ -241,7 +241,7 @@ theorem stored_once_history (hashOf : List β → H) (ops : List (LOp β F)) (st
             · simp only [List.mem_singleton] at h
               subst h
               simp only [List.map_append, List.map_cons, List.map_nil]
-              rw [recsD_runL hashOf glast mask name es fpf hsound, view_all_true _ mask hmask]
+              rw [recsD_runL hashOf glast mask name es fpf pad hsound, view_all_true _ mask hmask]
               have := unique_nodup (hashOf []) (glast.map (recsD hashOf)) (eventsOf hashOf fpf es)
                 (hst glast (List.mem_of_getLast? hl))
               rw [view_all_true _ (allReadable (glast.map (recsD hashOf))) (by intro b hb; simp [allReadable] at hb; exact hb.2)] at this
@@ -249,7 +249,7 @@ theorem stored_once_history (hashOf : List β → H) (ops : List (LOp β F)) (st
     · intro pre op' post heq
       have := hs (op :: pre) op' post (by simp [heq])
       simpa using this
-    · intro name es fpf mask ng hin
-      exact hread name es fpf mask ng (List.mem_cons_of_mem _ hin)
+    · intro name es fpf mask ng pad hin
+      exact hread name es fpf mask ng pad (List.mem_cons_of_mem _ hin)
 
 end Vsb.Restore
